@@ -2202,15 +2202,22 @@ def _make_tile_shapes(job: "Job"):
     constraints = job.constraints
     constraints.set_loop_indices(pmapping.nodes)
     set_last_tile_shape_to_one(pmapping)
+    from accelforge.model.main import InvalidMappingError
+
     t0 = time.time()
-    (
-        symbols,
-        symbolic_df,
-        per_memory_usage_df,
-        usage_df,
-        tensor2mapping,
-        actions_df,
-    ) = run_model(job)
+    try:
+        (
+            symbols,
+            symbolic_df,
+            per_memory_usage_df,
+            usage_df,
+            tensor2mapping,
+            actions_df,
+        ) = run_model(job)
+    except InvalidMappingError:
+        # Invalid whatever the tile shapes (e.g., a constant usage above a memory's
+        # size): this template has no pmappings. Other templates may still be valid.
+        return pd.DataFrame(), {}
 
     # Boundary: walk the symengine tree from run_model and build the
     # equivalent sympy tree. Much faster than sympy.sympify because we place
